@@ -2611,13 +2611,15 @@ class Signature(object):
             value = HDKey(value)
         if value.is_private:
             value = value.public()
-        self.x, self.y = value.public_point()
-        if not (0 <= self.x < secp256k1_p and 0 <= self.y < secp256k1_p):
+        # Check the key before it is taken over: a refused key leaves the signature as it was
+        x, y = value.public_point()
+        if not (0 <= x < secp256k1_p and 0 <= y < secp256k1_p):
             raise BKeyError('Invalid public key, coordinates must be smaller than the field prime')
 
         if USE_FASTECDSA:
-            if not fastecdsa_secp256k1.is_point_on_curve((self.x, self.y)):
+            if not fastecdsa_secp256k1.is_point_on_curve((x, y)):
                 raise BKeyError('Invalid public key, point is not on secp256k1 curve')
+        self.x, self.y = x, y
         self._public_key = value
 
     def hex(self):
